@@ -1063,6 +1063,7 @@ pub fn project(name: &str, trace: &[Value]) -> Vec<Value> {
         "recvlimits" => recvlimits(trace),
         "routing" => crate::proj_c09::routing(trace),
         "migration" => crate::proj_c15::migration(trace),
+        "dgram" => crate::proj_c16::dgram(trace),
         "master" => trace.to_vec(),
         o => panic!("unknown projection {o}"),
     }
